@@ -247,15 +247,21 @@ func checkSpan(c vcase) *vk.Failure {
 			if math.IsNaN(v) || allNaN(s) {
 				w = 0 // NearestIdx returns 0 here
 			}
-			if g != w {
-				k := key + "/special"
-				switch {
-				case math.IsInf(l, 0) && math.IsInf(u, 0) && l != u && n%2 == 0 && isFinite(v) && g == n/2 && w == 0:
-					k = key + "/infinite-bounds-finite-v"
-				case isFinite(l) && math.IsInf(u, 0) && v == u && g == n-1 && w == 1:
-					k = key + "/infinite-upper-v-equals-u"
+			// Documented exceptions to the equivalence with NearestIdx (ties
+			// between elements at infinite distance): "a finite v is nearest to
+			// the elements holding the infinity with the sign of v, and a v equal
+			// to an infinite u is nearest to the final element".
+			switch {
+			case math.IsInf(l, 0) && math.IsInf(u, 0) && l != u && n%2 == 0 && isFinite(v):
+				w = 0
+				if math.Signbit(v) != math.Signbit(l) {
+					w = n / 2
 				}
-				return vk.Failf(k, "NearestIdxForSpan(%d, %v, %v, %v) = %d but NearestIdx(Span(...), v) = %d (span %v)", n, l, u, v, g, w, clip(s))
+			case isFinite(l) && math.IsInf(u, 0) && v == u:
+				w = n - 1
+			}
+			if g != w {
+				return vk.Failf(key+"/special", "NearestIdxForSpan(%d, %v, %v, %v) = %d, want %d (span %v)", n, l, u, v, g, w, clip(s))
 			}
 			return nil
 		}
